@@ -171,6 +171,9 @@ def awaitable_children(ctx, n):
 
 def run(ctx):
     awaitable_children(ctx, ctx.n(60, 1200))
+    # a child that is WATCHED by a task of another scope still runs to completion when the watcher's scope ends (family of C06)
+    from harness.props import C06
+    C06.watched_tasks(ctx, ctx.n(12, 100))
     machine_prop.run(ctx, FAMILIES, MONITORS, extra_scenarios=teardown_races(ctx.rng, ctx.n(40, 800)))
     # a block that is waiting for its children ends as the text says (normally): what it raises is C05's rule
     machine_prop.run(ctx, [], MONITORS + [machine_prop.unclassified('C05')], extra_scenarios=graceful_waits(ctx.rng, ctx.n(30, 500)))
